@@ -31,6 +31,12 @@ Target gen_target(Src& s, bool want_bounded, bool centred = false)
 	if(want_bounded)
 	{
 		double a = s.mixed(-2, 2), w = std::pow(10.0, s.uniform(-2, 2)), b = a + w;
+		if(s.chance(0.2))
+		{	// a narrow domain at the origin (widths down to 1e-13: e.g. energies in GeV units)
+			a = 0.0;
+			w = std::pow(10.0, s.uniform(-13, -3));
+			b = w;
+		}
 		T.lo = a;
 		T.hi = b;
 		switch(s.pick({2, 2, 2, 2}))
@@ -488,9 +494,29 @@ VCLAUSE(law_general, 60, 600, 6000, "a loose rejection envelope (yMax >= 10 max 
 		n			  = std::min(n, 5000);
 		c.cls(bounded ? "Sample_Metropolis_bounded" : "Sample_Metropolis_unbounded");
 		VLOG(c, "Sample_Metropolis of " << T.name << " sigma=" << sigma << " thinning=" << thin << " n=" << n << " bounded=" << bounded);
+		// the requested domain may be wider than the support of the density (density exactly zero in the margins)
+		double margin = (bounded && s.coin()) ? w * s.uniform(0.3, 1.5) : 0.0;
+		if(margin > 0)
+		{
+			c.cls("metropolis_domain_wider_than_support");
+			burn = 3000;
+		}
 		std::vector<double> v;
-		VMUST_RETURN("Sample_Metropolis", v = Sample_Metropolis(g, T.pdf, sigma, (unsigned) n, thin, burn, bounded ? std::vector<double> {T.lo, T.hi} : std::vector<double> {}));
+		VMUST_RETURN("Sample_Metropolis", v = Sample_Metropolis(g, T.pdf, sigma, (unsigned) n, thin, burn, bounded ? std::vector<double> {T.lo - margin, T.hi + margin} : std::vector<double> {}));
 		VCHECK((int) v.size() == n, "Sample_Metropolis returned " << v.size() << " of " << n << " samples");
+		if(bounded)
+		{
+			long outside = 0;
+			for(double x : v)
+				if(x < T.lo - margin || x > T.hi + margin)
+					outside++;
+			VCHECK(outside == 0, outside << " of " << n << " Metropolis samples outside the requested domain");
+			long zero = 0;
+			for(double x : v)
+				if(!(T.pdf(x) > 0) && x != T.lo && x != T.hi)
+					zero++;
+			VCHECK(zero <= n / 100, zero << " of " << n << " Metropolis samples (after a burn-in of " << burn << " steps) lie where the target density is zero");
+		}
 		// lag-1 autocorrelation: with thinning 40 and a proposal of the target's width the chain is decorrelated
 		double m = 0, var = 0, cov = 0;
 		for(double x : v)
